@@ -1,10 +1,27 @@
 (** C01 — classification completes; pairs are one-to-one; each pair overlaps.
-    Quantification: all boolean vectors [heavy] (one flag per sample: rain above
-    the storm threshold) and [jumpf] (one flag per increment: increment above
-    jump threshold x step) — hence every loaded stretch and every pair of
-    thresholds — and every schedule of the arbitration work set. *)
+
+    Two levels.
+    (1) One gap-free stretch in index space: all boolean vectors [heavy] (one
+        flag per sample: rain above the storm threshold) and [jumpf] (one flag
+        per increment: increment above jump threshold x step) and every schedule
+        of the arbitration work set (theorems C01_matching_total ..
+        C01_no_key_clash).
+    (2) The whole `classify` COMMAND at table level (Model/ClassifyCommand.v):
+        every dataset with the structure `load` guarantees ([loaded_ok]: positive
+        step, every stretch on the grid with one rain value and one level per
+        epoch, all epochs of all stretches in increasing order), all thresholds
+        that are not NaN, one arbitrary schedule per stretch.  The model returns
+        [Err EIntegrity] when the inserted rows violate a NOT NULL / PRIMARY KEY
+        / UNIQUE / CHECK constraint of schema.sql, [Err EAssert] for the code's
+        assertions, [Err EValue] for its ValueErrors; the theorems
+        C01_command_* say that none of these occurs, within a stretch and across
+        stretches, that the (unenforced) foreign keys hold, and that every
+        recorded pair overlaps in TIME (epochs, not indices).
+        Two hypotheses of C01_command_total are NOT guaranteed by `load`
+        (witnesses in notes/C01.md): at least one data interval, finite levels. *)
 From Spowtd Require Import Model.Matching Model.Mystery Proofs.RunsSpec Proofs.MysterySpec
   Proofs.MatchingSpec Proofs.MatchStormsSpec Proofs.ClassifySpec.
+From Spowtd Require Import Model.ClassifyCommand Proofs.ClassifyCommandSpec.
 
 (** The matching pass never fails an assertion, never indexes out of range and
     never diverges, whatever the pop order of the work set. *)
@@ -54,3 +71,91 @@ Example C01_example :
   let jumpf := [true; true; true; false; false; true; true] in
   match_storms_flags heavy jumpf [] = Ok [((0, 1), (0, 4)); ((6, 8), (5, 8))].
 Proof. vm_compute. reflexivity. Qed.
+
+(** * The whole command, at table level *)
+
+(** Totality: on every loaded dataset with at least one data interval and finite
+    levels, for all thresholds that are not NaN and all pop orders, the command
+    commits: no assertion fails and no key / unique / check / not-null constraint
+    is violated by the rows of all stretches together (distinct epochs give
+    distinct keys; a rise and an interstorm interval never share a start epoch;
+    storm keys and link keys are distinct). *)
+Theorem C01_command_total : forall step thr_s thr_j ds scheds,
+  loaded_ok step ds = true -> ds <> [] -> levels_finite ds = true ->
+  PrimFloat.is_nan thr_s = false -> PrimFloat.is_nan thr_j = false ->
+  exists rows, classify_command step thr_s thr_j ds scheds = Ok rows.
+Proof. exact command_total_ok. Qed.
+Print Assumptions C01_command_total.
+
+(** The rows are those of [classify_stretch], stretch by stretch, concatenated. *)
+Theorem C01_command_rows_by_stretch : forall step thr_s thr_j ds scheds c,
+  classify_command step thr_s thr_j ds scheds = Ok c ->
+  exists rs, c = tables_of thr_s thr_j rs /\
+    Forall2 (fun s r => exists sched,
+               classify_stretch (s_epochs s) step thr_s thr_j (s_rain s) (s_zeta s) sched = Ok r) ds rs.
+Proof. exact command_rows_by_stretch. Qed.
+Print Assumptions C01_command_rows_by_stretch.
+
+(** One-to-one at table level: no rise start and no storm start occurs in two
+    rows of zeta_interval_storm; every such row has type 'storm' and references
+    an existing storm row and an existing zeta_interval row of type 'storm' (the
+    foreign keys hold although SQLite does not enforce them here); every storm
+    row and every rise row is referenced. *)
+Theorem C01_command_one_to_one : forall step thr_s thr_j ds scheds c,
+  loaded_ok step ds = true -> classify_command step thr_s thr_j ds scheds = Ok c ->
+  NoDup (map zi_start (c_link c)) /\ NoDup (map zi_thru (c_link c)) /\
+  (forall l, In l (c_link c) ->
+     zi_type l = TStorm /\
+     (exists thru, In (zi_thru l, thru) (c_storm c)) /\
+     (exists thru, In (zi_start l, TStorm, thru) (c_zeta_interval c))) /\
+  (forall st, In st (c_storm c) -> exists a, In (a, TStorm, fst st) (c_link c)) /\
+  (forall a thru, In (a, TStorm, thru) (c_zeta_interval c) -> exists s0, In (a, TStorm, s0) (c_link c)).
+Proof. exact command_one_to_one. Qed.
+Print Assumptions C01_command_one_to_one.
+
+(** Overlap in TIME: for every row of zeta_interval_storm, with the storm row
+    [start, thru_s) and the rise row (levels read at start .. thru_r) it
+    references, there is a grid step [e, e + step] whose two ends are samples of
+    ONE stretch, that lies inside the storm and inside the rise. *)
+Theorem C01_command_pairs_overlap_in_time : forall step thr_s thr_j ds scheds c,
+  loaded_ok step ds = true -> classify_command step thr_s thr_j ds scheds = Ok c ->
+  forall l, In l (c_link c) ->
+  forall thru_s thru_r, In (zi_thru l, thru_s) (c_storm c) ->
+                        In (zi_start l, TStorm, thru_r) (c_zeta_interval c) ->
+  exists s e, In s ds /\ In e (s_epochs s) /\ In (e + step)%Z (s_epochs s) /\
+    (zi_thru l <= e)%Z /\ (e + step <= thru_s)%Z /\ (zi_start l <= e)%Z /\ (e + step <= thru_r)%Z.
+Proof. exact command_pairs_overlap_in_time. Qed.
+Print Assumptions C01_command_pairs_overlap_in_time.
+
+(** What the command refuses: without data intervals a ValueError, with a NaN
+    threshold the NOT NULL constraint of table thresholds. *)
+Theorem C01_command_no_interval : forall step thr_s thr_j scheds,
+  PrimFloat.is_nan thr_s = false -> PrimFloat.is_nan thr_j = false ->
+  classify_command step thr_s thr_j [] scheds = Err EValue.
+Proof. exact command_no_interval. Qed.
+Print Assumptions C01_command_no_interval.
+
+(** A shift of every epoch shifts every row and changes nothing else. *)
+Theorem C01_command_shift : forall d step thr_s thr_j ds scheds c,
+  loaded_ok step ds = true ->
+  classify_command step thr_s thr_j ds scheds = Ok c ->
+  classify_command step thr_s thr_j (map (shift_stretch d) ds) scheds = Ok (shift_command d c).
+Proof. exact command_shift. Qed.
+Print Assumptions C01_command_shift.
+
+(** Non-vacuity: two stretches separated by an outage; the storm of the first
+    stretch runs to its last sample and closes at an instant inside the outage;
+    the second stretch begins in a storm.  Also the refusals: a level that is
+    not finite, epochs off the grid, one epoch in two stretches (key clash). *)
+Example C01_command_example :
+  loaded_ok 3600 example_dataset = true /\ levels_finite example_dataset = true /\
+  classify_command 3600 4 1 example_dataset [] = Ok example_rows.
+Proof. vm_compute. repeat split; reflexivity. Qed.
+
+Example C01_command_refusals :
+  classify_command 3600 4 1 [mkStretch 1 [0; 3600]%Z [0; 0]%float [0; infinity]%float] [] = Err EAssert
+  /\ classify_command 3600 4 1 [mkStretch 1 [0; 3600; 7201]%Z [0; 0; 0]%float [0; 0; 0]%float] [] = Err EValue
+  /\ classify_command 3600 4 1 [mkStretch 1 [0; 3600]%Z [0; 0]%float [0; 0]%float;
+                                mkStretch 2 [3600; 7200]%Z [0; 0]%float [0; 0]%float] [] = Err EIntegrity
+  /\ classify_command 3600 nan 1 example_dataset [] = Err EIntegrity.
+Proof. vm_compute. repeat split; reflexivity. Qed.
